@@ -26,6 +26,32 @@ var goType = map[string]string{
 	"CAPABILITY": "*tds.CapabilityPackage", "ROWFMT": "*tds.RowFmtPackage", "ROWFMT2": "*tds.RowFmtPackage",
 	"PARAMFMT": "*tds.ParamFmtPackage", "PARAMFMT2": "*tds.ParamFmtPackage", "ROW": "*tds.RowPackage",
 	"PARAMS": "*tds.ParamsPackage", "ORDERBY": "*tds.OrderByPackage", "ORDERBY2": "*tds.OrderBy2Package",
+	"ERROR": "*tds.ErrorPackage", "DYNAMIC": "*tds.DynamicPackage", "DYNAMIC2": "*tds.DynamicPackage",
+	"CURINFO": "*tds.CurInfoPackage", "CURINFO3": "*tds.CurInfoPackage", "CURDECLARE": "*tds.CurDeclarePackage",
+	"CURDECLARE3": "*tds.CurDeclarePackage", "CUROPEN": "*tds.CurOpenPackage", "CURFETCH": "*tds.CurFetchPackage",
+	"CURUPDATE": "*tds.CurUpdatePackage", "CURDELETE": "*tds.CurDeletePackage", "LANGUAGE": "*tds.LanguagePackage",
+}
+
+// genericPkg: one package of the kinds whose bytes come from the (C06-checked) writers: every
+// token of LookupPackage takes part in the fragmentation runs.
+func genericPkg(rng *rand.Rand) (wPkg, bool) {
+	names := []string{"ERROR", "DYNAMIC", "DYNAMIC2", "CURINFO", "CURINFO3", "CURDECLARE", "CURDECLARE3", "CUROPEN", "CURFETCH",
+		"CURUPDATE", "CURDELETE", "LANGUAGE", "MSG", "RETURNSTATUS"}
+	want := names[rng.Intn(len(names))]
+	for _, k := range wkinds {
+		if k.kind != want {
+			continue
+		}
+		f := k.random(rng, true)
+		pkg, _ := tds.LookupPackage(tds.Token(k.token))
+		setFields(pkg, k, f)
+		wb, st := writeBytes(pkg)
+		if st != "ok" || len(wb) == 0 || wb[0] != k.token {
+			return wPkg{}, false
+		}
+		return wPkg{Kind: k.kind, Bytes: wb, Pass: true}, true
+	}
+	return wPkg{}, false
 }
 
 type rxRunner struct {
@@ -506,7 +532,7 @@ func randResponse(rng *rand.Rand, maxVar int, packSize int) []wPkg {
 	nsets := 1 + rng.Intn(2)
 	for s := 0; s < nsets; s++ {
 		special()
-		switch rng.Intn(5) {
+		switch rng.Intn(6) {
 		case 0, 1, 2: // a result set
 			wide := true
 			cols := randCols(rng, 1+rng.Intn(5), wide)
@@ -529,10 +555,28 @@ func randResponse(rng *rand.Rand, maxVar int, packSize int) []wPkg {
 			}
 			ps = append(ps, encFmt(rng, tok, cols, fmtOpts{wide: wide, narrowL2: !wide}))
 			ps = append(ps, encData(rng, tokParams, cols, maxVar))
-		case 4:
+		case 4, 5:
 			ps = append(ps, encRetStat(int32(rng.Uint32())))
 			if rng.Intn(2) == 0 {
 				ps = append(ps, encMsg(rng.Intn(2), 1+rng.Intn(40)))
+			}
+			switch rng.Intn(4) {
+			case 0:
+				ps = append(ps, encLoginAck(5+rng.Intn(3), [4]byte{5, 0, 0, 0}, randName(rng, 12), [4]byte{16, 0, 2, 1}))
+			case 1:
+				ps = append(ps, encCapability([]int{1, 2}, map[int][]byte{1: capMask(peerReqCaps), 2: capMask(peerResCaps)}))
+			case 2: // a narrow result set: ROWFMT (2-byte length), ORDERBY, ROW
+				cols := randCols(rng, 1+rng.Intn(3), false)
+				ps = append(ps, encFmt(rng, tokRowFmt, cols, fmtOpts{row: true, narrowL2: true}))
+				if rng.Intn(2) == 0 {
+					ps = append(ps, encOrderBy([]int{1, 2}))
+				}
+				ps = append(ps, encData(rng, tokRow, cols, maxVar))
+			}
+			for k := rng.Intn(3); k > 0; k-- {
+				if g, ok := genericPkg(rng); ok {
+					ps = append(ps, g)
+				}
 			}
 		}
 		if s < nsets-1 || rng.Intn(3) > 0 {
